@@ -19,7 +19,6 @@ inductive Panic
   | imageTooLarge       -- RAM index out of bounds in `Machine::load`
   deriving DecidableEq, Repr
 
-def lower (s : String) : String := s.toLower
 
 def srcMode : Src → Nat
   | .reg _ => 0 | .const _ => 2 | .di _ => 2 | .ddi _ => 3
